@@ -39,6 +39,9 @@ def cases(rng, tier):
     # very long chains (> 1000 residues, lengths that are not round numbers)
     for sq in gen.very_long(rng, tier != "quick"):
         yield Case(["q %s %s%s" % (q.split(" ")[0], sq, "".join(" " + a for a in q.split(" ")[1:])) for q in ['scd']], {"kind": "very-long"})
+    # lengths at / next to powers of two and round thousands with charged residues at BOTH termini; chains with 1000 / 1001 / 1025 charged residues
+    for sq in gen.boundary_seqs(rng, tier != "quick") + gen.charged_count_seqs(rng, tier != "quick"):
+        yield Case(["q scd " + sq], {"kind": "boundary-length-or-charged-count"})
     # objects built from sequence files (two per block)
     for c in gen.file_cases(rng, 12 if tier == "quick" else 100, ['scd']):
         yield c
@@ -76,7 +79,7 @@ def judge(case, reals, gens, specs):
     if reals[0][0] == "childq":
         ok_c, why = core.judge_childq(reals[0])
         return [] if ok_c else [("violation", 0, why)]
-    if case.tags.get("kind") in ("after-other-calls", "after-calls-on-another-object", "object-from-file", "object-from-big-file", "very-long", "repeated-calls"):
+    if case.tags.get("kind") in ("after-other-calls", "after-calls-on-another-object", "object-from-file", "object-from-big-file", "very-long", "repeated-calls", "boundary-length-or-charged-count"):
         from ..runner import default_judge
         return default_judge(None, case, reals, gens, specs)      # (only the final scd line: judge_from)
     r, g, s = reals[0], gens[0], specs[0]
